@@ -119,8 +119,8 @@ def requires_flat(repo: Repo, cls: ClassInfo) -> Optional[str]:
         for n in walk_no_nested(m.node):
             if isinstance(n, ast.Attribute) and n.attr in ("variable", "condition", "get_support", "get_free_symbols") and isinstance(n.ctx, ast.Load):
                 r = defs.roots(n.value)
-                if any(x in ("attr:loop_body", "attr:initial") for x in r) or (isinstance(n.value, ast.Name) and n.value.id in defs.params and
-                                                                                 any("Assignment" in src(a.annotation) for a in m.node.args.args if a.arg == n.value.id and a.annotation)):
+                ann_params = {"param:" + a.arg for a in m.node.args.args if a.annotation is not None and "Assignment" in src(a.annotation)}
+                if any(x in ("attr:loop_body", "attr:initial") for x in r) or (r & ann_params):
                     if not any(isinstance(x, ast.Call) and call_name(x) == "isinstance" and "IfStatem" in src(x) for x in walk_no_nested(m.node)):
                         return f"{m.qualname} reads `.{n.attr}` of section elements"
     return None
